@@ -1063,6 +1063,41 @@ def _probe() -> ReachProbe:
     })
 
 
+def wide_integers(run) -> None:
+    """Integers that text can carry and a 32-bit binary field cannot (the ValueType documents INTEGER in text as arbitrary
+    precision): written with export_kv2 under every layout option and read back exactly, as scalars and as array items."""
+    import io as _io
+    from srctools.dmx import Element, Attribute
+    values = [2 ** 31, -2 ** 31 - 1, 2 ** 32 + 5, 2 ** 53, 2 ** 53 + 1, -(2 ** 53) - 1, 2 ** 63 - 1, -(2 ** 63), 2 ** 64 - 1,
+              10 ** 20 + 7, 123456789012345678, 9007199254740993, 3 ** 60]
+    for flat in (False, True):
+        for cull in (False, True):
+            for uni in ('ascii', 'format', 'silent'):
+                e = Element('wide', 'DmElement')
+                for k, v in enumerate(values):
+                    e[f'i{k}'] = Attribute.int(f'i{k}', v)
+                e['arr'] = Attribute.array('arr', __import__('srctools.dmx', fromlist=['ValueType']).ValueType.INT)
+                for v in values:
+                    e['arr'].append(v)
+                case = {'engine': 'wide-integers', 'flat': flat, 'cull_uuid': cull, 'unicode': uni}
+                b = _io.BytesIO()
+                try:
+                    e.export_kv2(b, 't', 1, flat=flat, cull_uuid=cull, unicode=uni)
+                    r, _, _ = Element.parse(_io.BytesIO(b.getvalue()), unicode=True)
+                    got = [r[f'i{k}'].val_int for k in range(len(values))]
+                    got_arr = list(r['arr'].iter_int())
+                except Exception as exc:
+                    run.violation(f'kv2 flat={flat} cull_uuid={cull} unicode={uni}: integers beyond 32 bits raised {exc!r}',
+                                  witness=traceback.format_exc()[-900:], case=case, engine='wide-integers', key='wide-integer-raises')
+                    continue
+                run.count('wide_integer_roundtrips')
+                if got != values or got_arr != values:
+                    bad = next((w, g) for w, g in zip(values + values, got + got_arr) if w != g)
+                    run.violation(f'kv2 flat={flat} cull_uuid={cull} unicode={uni}: the integer {bad[0]} came back as {bad[1]}',
+                                  witness={'wrote': values, 'read_scalars': got, 'read_array': got_arr}, case=case,
+                                  engine='wide-integers', key='wide-integer-altered')
+
+
 def _preflight(run) -> None:
     from rv.monitor import Inconclusive
     import srctools.dmx as dmx
@@ -1145,9 +1180,10 @@ def main(run, shard=(0, 1)) -> None:
             check_kv(run, sub_rng(run.seed, 'kv1-fixed', j), tree, 'kv1-fixed', {'engine': 'kv1-fixed', 'index': j})
     if shard[0] == 0:
         name_attr_case(run)
+        wide_integers(run)
     probe.report(run)
     probe.check_reached(run)
-    run.require('default_argument_exports', 'legacy_version_0_roundtrips', 'string_table_overflow_refused', 'second_generation_roundtrips', 'bytes_parsed_again_after_the_first_graph_was_edited', 'binary_parses', 'kv2_parses', 'real_file_roundtrips', 'repeated_exports', 'graphs_re_exported_after_edits', 'independent_decodes_agree', 'to_kv1_calls', 'to_kv1_after_wire',
+    run.require('wide_integer_roundtrips', 'default_argument_exports', 'legacy_version_0_roundtrips', 'string_table_overflow_refused', 'second_generation_roundtrips', 'bytes_parsed_again_after_the_first_graph_was_edited', 'binary_parses', 'kv2_parses', 'real_file_roundtrips', 'repeated_exports', 'graphs_re_exported_after_edits', 'independent_decodes_agree', 'to_kv1_calls', 'to_kv1_after_wire',
                 'graphs_with_sharing', 'graphs_with_cycle', 'graphs_with_self_loop', 'graphs_with_nameless_elements', 'stub_occurrences', 'null_in_array_occurrences',
                 'empty_array_occurrences', 'scalar_matrix_occurrences', 'name_needs_escape_occurrences',
                 'unicode_string_array_occurrences', 'unicode_type_occurrences', 'ascii_mode_refused_non_ascii',
@@ -1186,4 +1222,4 @@ def replay(run, data) -> None:
 
 
 # (kept at the end of the file so that the text above stays the description the check was first built to)
-RULE += ' ' + "Later additions: binary version 0 (legacy header, format names 'sfm' / 'binary'); a graph with 33 200 table strings (versions 2-4 may refuse it); attributes built through the typed constructors and arrays filled through append / extend / __setitem__ / __delitem__. A third of the parses read the document from a stream that holds other bytes in front of it and stands at its first byte."
+RULE += ' ' + "Later additions: binary version 0 (legacy header, format names 'sfm' / 'binary'); a graph with 33 200 table strings (versions 2-4 may refuse it); attributes built through the typed constructors and arrays filled through append / extend / __setitem__ / __delitem__. A third of the parses read the document from a stream that holds other bytes in front of it and stands at its first byte. Integers beyond 32 and beyond 53 bits written as text (scalars and array items, every layout option) come back exactly."
